@@ -86,8 +86,8 @@ func FindGuarded(pkgs []*types.Package) []Guarded {
 // Analysis is the result for one guarded struct.
 type Analysis struct {
 	G        Guarded
-	Funcs    []*ssa.Function         // functions that touch the struct through a parameter/receiver base
-	EntryOf  map[*ssa.Function]Mode  // lock mode assumed at entry
+	Funcs    []*ssa.Function        // functions that touch the struct through a parameter/receiver base
+	EntryOf  map[*ssa.Function]Mode // lock mode assumed at entry
 	Accesses []Access
 	// Acquires counts Lock/RLock call sites per function.
 	Acquires map[*ssa.Function][]ssa.Instruction
